@@ -700,6 +700,30 @@ static void body_plan(unsigned cfg, int shape, int actor, int action) {
     if (!(shape == 4 && s == actor && false)) VASSERT(C06, !f._core.planData.tasksSuccesses.get(s) || (acts && action == 1 && s == actor && n_exec == 0 && in_region && attached && n > 0), "success marks survive only while their state waits for its task");
   }
 }
+#ifdef VM_PLAN_PAYLOAD
+// C14: a payload given to a plan task reaches the state the task activates, unchanged; a task without payload exposes none
+static void body_plan_payload(unsigned cfg, int with_payload) {
+  CONFIGURED(f, cfg);
+  VASSUME(spec_active(f, 3));                                        // B1 active: the task's origin
+  const int32_t pv = nd_i32();
+  { auto plan = f.plan((RegionID) VM_PLAN_REGION);
+    const bool ok = with_payload ? plan.changeWith((StateID) 3, (StateID) 4, pv) : plan.change((StateID) 3, (StateID) 4);
+    VASSUME(ok); }
+  g_actor = 3; g_action = 1; g_issuer = -1; g_issuer2 = -1;
+  g_pay_n = 1; g_pay_dest[0] = 4; g_pay_has[0] = with_payload != 0; g_pay_val[0] = pv;      // the stubs check guards (pending) and enter (current) against this
+  f.update();
+  VASSERT(C01, inv_config(f) && inv_quiescent(f), "the configuration is well-formed after the step");
+  if (!g_round_cancelled) {
+    VREACH("a payload task is executed");
+    VASSERT(C06/C14, spec_active(f, 4), "the task's destination is active");
+    St<1>::check_payloads(f.previousTransitions(), false);
+    const Instance::Transition* t = f.lastTransitionTo((StateID) 4);
+    VASSERT(C14, t != nullptr, "the activating transition is on record");
+    if (t) { if (with_payload) VASSERT(C14, t->payload() && *t->payload() == pv, "the payload of a plan task reaches the state the task activates, unchanged");
+             else VASSERT(C14, t->payload() == nullptr, "a plan task without payload exposes none"); }
+  }
+}
+#endif
 #ifdef VM_NESTED_PLANS
 // the inner region's plan advances when its sub-state succeeds, whatever the ENCLOSING region's head reports in the same step
 static void body_plan_nested(int outer_mark) {                  // 0: outer head silent, 1: outer head marked succeeded from outside, 2: marked failed
